@@ -5,8 +5,10 @@ CONSTANTS
   MaxTail = 4
   ElemTail = 1
   NestTail = 2
+  DeepTail = 1
   Nums = {1}
   MaxOperands = 1
   WithNeg = FALSE
+  CmpOps = {}
 INVARIANTS TypeOK FoldInv LeftFold SourceOrder Distinguishes Export
-PROPERTY Terminates
+PROPERTY Terminates ReadOnly
